@@ -209,6 +209,24 @@ def patFreq (cfg : PatCfg) : Mergeable Str (FreqState Str) (List (Str × Rat)) w
   merge := FreqState.merge
   result s := s.result strLe
 
+/-! ## the one-shot functions (metrics/text.py) -/
+
+/-- metrics/text.py:26 `topk_word_ngrams`: validate `k`, `n`, then
+`TopKWordNGrams(...).as_agg_fn()(texts)`, i.e. `AggregateFn.__call__` (base.py:153) =
+`get_result(update_state(create_state(), texts))` -/
+def topkWordNGramsFn (k n : Int) (firstOnly countDup : Bool) (texts : List Str) :
+    Except ErrKind (List (Str × Rat)) :=
+  match NGramCfg.make k n firstOnly countDup with
+  | .error e => .error e
+  | .ok cfg => let m := topK cfg; .ok (m.result (m.add m.empty texts))
+
+/-- metrics/text.py:77 `pattern_frequency` -/
+def patternFrequencyFn (patterns : List Str) (countDup : Bool) (texts : List Str) :
+    Except ErrKind (List (Str × Rat)) :=
+  match PatCfg.make patterns countDup with
+  | .error e => .error e
+  | .ok cfg => let m := patFreq cfg; .ok (m.result (m.add m.empty texts))
+
 /-! ## `avg_alphabetical_char_count` (metrics/text.py:109, signals/text.py:22) -/
 
 /-- `len(re.sub(r'[^a-zA-Z]', '', text))` -/
